@@ -1,5 +1,7 @@
 package main
 
+import "verifsim/engines/worldsim"
+
 // extraCommand dispatches commands added by later engines (solo, selftest).
 func extraCommand(name string, args []string) bool {
 	if f, ok := extraCommands[name]; ok {
@@ -9,4 +11,8 @@ func extraCommand(name string, args []string) bool {
 	return false
 }
 
-var extraCommands = map[string]func([]string){}
+var extraCommands = map[string]func([]string){
+	"solo":      worldsim.SoloMain,
+	"worldeval": worldsim.EvalMain,
+	"parallel":  worldsim.ParallelMain,
+}
